@@ -57,3 +57,7 @@ Definition prog_ok (l : prog) : bool := wfpb l && has_lp l.
 Definition ev_ok (e : ev) : bool := match e with Begin _ p => prog_ok p | Tick _ => true end.
 Definition mquiet (b : bst) : mst :=
   {| m_b := b; m_pend := fun _ => []; m_snap := b_priv b; m_done := fun _ => [] |}.
+
+(* thread t executes its next act, k times *)
+Definition ticks_of (t : tid) (k : nat) : list ev := repeat (Tick t) k.
+
